@@ -30,6 +30,15 @@ INFO = {
  "C13-b": ("cspline_eval_vs: value-only end-point fast path (u == 0 / u == 1)", "BSpline of degree >= 2, value-only call spl(t), t exactly on a knot / <= t_min / >= t_max"),
  "C14-b": ("dubins(): the RSR candidate does not update min_length", "RSR shortest, a CCC word feasible and shorter than LSL / LSR / RSL (2-7 % of near targets)"),
  "C15-b": ("operator*= composes straight into its own storage", "self-aliased x *= x on SO2 / C1 / SE2 or a Bundle with them"),
+ "C01-b": ("Bundle composition adds coefficients when every part is commutative", "a Bundle (or nested sub-Bundle) whose parts are all commutative and include SO2 or C1"),
+ "C03-b": ("SE_K_3 ad: diagonal rotation block written to column block 1 instead of i", "SE_K_3 with K >= 3 (ad, lie_bracket)"),
+ "C05-b": ("SE3 calculate_Q_dQ: 'pure translation' fast path drops dQ/dw", "SE3 (or a Bundle with it), rotation part exactly zero or <= 1e-12, non-zero translation; d2r_exp / d2r_expinv"),
+ "C06-b": ("Bundle d2r_exp / d2r_expinv skip parts whose tangent segment is below 1e-4", "Bundle with a non-commutative member whose tangent segment has norm < 1e-4 (zero included)"),
+ "C07-b": ("AnyManifold holds a shared_ptr, defaulted copy assignment", "copy made by copy assignment (also vector assignment), then an in-place write through get<M>()"),
+ "C08-b": ("dr<1, Default> ignores a jacobian-only callable (off-by-one in the order concept)", "Default mode, K = 1, callable with jacobian() but no hessian()"),
+ "C17-b": ("eulerAngles 'normalises' the middle angle to [-pi/2, pi/2]", "proper-Euler conventions (i1 == i3) and a rotation with |a2| > pi/2"),
+ "C19-b": ("Bundle dr_exp_sparse / dr_expinv_sparse skip commutative parts", "mixed Bundle (commutative and non-commutative parts) and a host matrix whose stored values on those diagonals are not already 1"),
+ "C20-b": ("integrate_absolute_polynomial: stable root formula with sgn(B) = 0 for B = 0", "quadratic with B == 0 exactly, A C < 0 and a root inside the interval"),
  "C16-b": ("SE_K_3::r3(int k) mutable accessor starts at K*k instead of 3*k", "SE_K_3 with K not in {1,3}, mutable value or Map, run-time index k >= 1"),
 }
 rows = []
